@@ -74,6 +74,18 @@ pub fn eval(ctx: &Ctx, op: &str, a: &[&str]) -> Option<String> {
 }
 
 pub fn gen(ctx: &Ctx, rng: &mut Rng, out: &mut Vec<String>) {
+    // text output longer than any block or buffer a writer is likely to use (value lines of 64 KiB, 128 KiB and more): the plain view
+    // reproduces the input, with and without an option that leaves the number of entries alone
+    for (i, (shape, p)) in [(vec![21usize, 21, 21], 6usize), (vec![9500], 5), (vec![130, 130], 6), (vec![1300], 60)].into_iter().enumerate() {
+        if !ctx.tier_thorough && i >= 2 { continue; }
+        let n: usize = shape.iter().product();
+        let data: Vec<f64> = (0..n).map(|j| ((j * 7 + i) % 211) as f64 + if j % 3 == 0 { 0.5 } else { 0.0 }).collect();
+        for (mask, norm) in [(false, false), (true, false), (false, true)] {
+            if !ctx.tier_thorough && norm && i == 1 { continue; }
+            let o = Opts { mask, norm, ..Default::default() };
+            out.push(format!("c13.viewtext\t{}\t{}\t{}\t{p}", nats(&shape), bits(&data), enc(&o)));
+        }
+    }
     let nspec = if ctx.tier_thorough { 400 } else { 40 };
     for si in 0..nspec {
         let shape = if si < 6 { vec![vec![3], vec![2, 3], vec![3, 3, 2], vec![2, 2, 3, 2], vec![1, 4], vec![5, 1, 2]][si].clone() }
